@@ -231,3 +231,63 @@ Proof. unfold chained_spec. rewrite sort_by_perm. apply sub_run_spec_perm. Qed.
 
 Example chained_spec_f1_example : chained_spec start_f1 [2; 1] = [2; 1] /\ sub_run_spec start_f1 [2; 1] = [1; 2].
 Proof. vm_compute. split; reflexivity. Qed.
+
+(* ---------------------------------------------------------------------------------------------
+   histories of (re)definitions and gets on one directory: data found stored under the current
+   definition was stored under a definition with the same sub-runs -- never stale
+   --------------------------------------------------------------------------------------------- *)
+Lemma list_eqb_eq a b : list_eqb a b = true <-> a = b.
+Proof.
+  revert b; induction a as [|x a IH]; intros [|y b]; cbn; split; intros H; try discriminate; auto.
+  - apply andb_prop in H as [H1 H2]. apply Z.eqb_eq in H1. apply IH in H2. congruence.
+  - inversion H; subst. rewrite Z.eqb_refl. cbn. now apply IH.
+Qed.
+
+(* the definitions that were current when a get actually stored something *)
+Fixpoint h_gotten (s : hstate) (ops : list hop) : list (list Z) :=
+  match ops with
+  | [] => []
+  | op :: more =>
+      (match op with
+       | HGet true => if h_is_stored s then [] else [h_spec s]
+       | _ => []
+       end) ++ h_gotten (h_step s op) more
+  end.
+
+Lemma h_made_sound ops : forall s G,
+  (forall k, In k (h_made s) -> exists spec, In spec G /\ k = fst (canon_spec spec false)) ->
+  forall k, In k (h_made (fold_left h_step ops s)) ->
+  exists spec, In spec (G ++ h_gotten s ops) /\ k = fst (canon_spec spec false).
+Proof.
+  induction ops as [|op ops IH]; intros s G HG k Hk; cbn [fold_left h_gotten] in *.
+  - rewrite app_nil_r. auto.
+  - rewrite app_assoc. apply (IH (h_step s op)); [|exact Hk].
+    intros k' Hk'. destruct op as [d|w]; cbn [h_step] in Hk'.
+    + cbn [h_made] in Hk'. destruct (HG k' Hk') as (spec & Hin & He). exists spec. split; [|exact He].
+      rewrite app_nil_r. exact Hin.
+    + destruct w; cbn [andb] in Hk'.
+      * destruct (h_is_stored s) eqn:E; cbn [negb] in Hk'.
+        -- destruct (HG k' Hk') as (spec & Hin & He). exists spec. split; [|exact He]. rewrite app_nil_r. exact Hin.
+        -- cbn [h_made] in Hk'. destruct Hk' as [<-|Hk'].
+           ++ exists (h_spec s). split; [apply in_or_app; right; left; reflexivity|reflexivity].
+           ++ destruct (HG k' Hk') as (spec & Hin & He). exists spec. split; [|exact He]. apply in_or_app; left; exact Hin.
+      * destruct (HG k' Hk') as (spec & Hin & He). exists spec. split; [|exact He]. rewrite app_nil_r. exact Hin.
+Qed.
+
+Theorem hist_not_stale ops :
+  let s := fold_left h_step ops (mkh [] []) in
+  h_is_stored s = true ->
+  exists spec, In spec (h_gotten (mkh [] []) ops) /\ Permutation spec (h_spec s).
+Proof.
+  cbn zeta. intros H. unfold h_is_stored in H. apply existsb_exists in H as (k & Hk & He).
+  apply list_eqb_eq in He.
+  destruct (h_made_sound ops (mkh [] []) [] ltac:(intros k' []) k Hk) as (spec & Hin & Hs).
+  exists spec. split; [exact Hin|].
+  unfold h_key in He. rewrite Hs in He. unfold canon_spec in He. cbn [fst] in He.
+  rewrite <- (sort_by_perm (fun x => x) spec), <- (sort_by_perm (fun x => x) (h_spec _)), He. reflexivity.
+Qed.
+
+Example hist_example :
+  h_trace (mkh [] []) [HDefine [1; 2; 3]; HGet true; HDefine [2; 1]; HGet true; HDefine [3; 2; 1]]
+  = [false; true; false; true; true].
+Proof. vm_compute. reflexivity. Qed.
